@@ -130,6 +130,32 @@ daglish.register_node_traverser(
 )
 
 
+class TmpPrim:
+  """User node type whose flatten creates fresh *primitive* temporaries."""
+
+  def __init__(self, a=None):
+    self.a = a
+
+  @property
+  def bang(self):
+    return '%8r!' % (self.a,)      # a new str object on every access
+
+  def __canon__(self):
+    return (self.a,)
+
+  def __repr__(self):
+    return f'TmpPrim({self.a!r})'
+
+
+daglish.register_node_traverser(
+    TmpPrim,
+    flatten_fn=lambda t: ((t.bang,), t.a),
+    unflatten_fn=lambda values, a: TmpPrim(
+        a if list(values) == ['%8r!' % (a,)] else ('CORRUPT', a)),
+    path_elements_fn=lambda t: (daglish.Attr('bang'),),
+)
+
+
 @dataclasses.dataclass
 class DC:
   x: object = 'dx'
